@@ -349,6 +349,13 @@ pub fn rle_lengths(r: &mut Rng, all: &[u8], style: u32) -> Vec<(u8, u8)> {
         }
         let fancy = style == 1;
         let use_rle = !fancy || r.chance(3, 4);
+        // symbol 16 directly behind zeros (behind a 17/18 run or behind explicit zeros) repeats the zero
+        if fancy && v == 0 && run >= 3 && i > 0 && all[i - 1] == 0 && r.chance(1, 12) {
+            let take = 3 + r.usize_below(run.min(6) - 2);
+            out.push((16, (take - 3) as u8));
+            i += take;
+            continue;
+        }
         if v == 0 && run >= 3 && use_rle {
             let take = if fancy {
                 3 + r.usize_below(run.min(138) - 2)
@@ -363,8 +370,8 @@ pub fn rle_lengths(r: &mut Rng, all: &[u8], style: u32) -> Vec<(u8, u8)> {
             i += take;
             continue;
         }
-        // symbol 16 repeats the previous length (also legal after a zero)
-        if i > 0 && all[i - 1] == v && run >= 3 && use_rle && (v != 0 || fancy) {
+        // symbol 16 repeats the previous non-zero length
+        if i > 0 && all[i - 1] == v && run >= 3 && use_rle && v != 0 {
             let take = if fancy {
                 3 + r.usize_below(run.min(6) - 2)
             } else {
